@@ -133,6 +133,9 @@ pub struct World {
     /// tx hash -> (arena id of a containing block, index); one entry per containing block
     pub tx_locs: HashMap<Byte32, Vec<(usize, u32)>>,
     pub always_success_dep: packed::CellDep,
+    /// epoch number -> (length, compact target): one difficulty schedule for all branches
+    /// (competing branches with different difficulty in the same epoch are not explored)
+    pub epoch_plan: HashMap<u64, (u64, u32)>,
 }
 
 struct TxProvider<'a>(&'a HashMap<Byte32, TransactionView>);
@@ -329,7 +332,28 @@ impl World {
             txs,
             tx_locs,
             always_success_dep,
+            epoch_plan: HashMap::new(),
         }
+    }
+
+    /// Highest block that is an ancestor-or-self of both blocks (by arena id).
+    pub fn common_ancestor(&self, a: usize, b: usize) -> usize {
+        let (mut a, mut b) = (a, b);
+        while self.blocks[a].number() > self.blocks[b].number() {
+            a = self.blocks[a].parent.unwrap();
+        }
+        while self.blocks[b].number() > self.blocks[a].number() {
+            b = self.blocks[b].parent.unwrap();
+        }
+        while a != b {
+            a = self.blocks[a].parent.unwrap();
+            b = self.blocks[b].parent.unwrap();
+        }
+        a
+    }
+
+    pub fn is_ancestor_or_self(&self, anc: usize, of: usize) -> bool {
+        self.common_ancestor(anc, of) == anc
     }
 
     pub fn genesis(&self) -> &BlockView {
@@ -465,11 +489,21 @@ impl World {
         // --- epoch & difficulty
         let pe = parent_header.epoch();
         let (epoch, compact) = if number == 1 {
-            let len = rng.range(params.epoch_len.0.max(2), params.epoch_len.1.max(2));
+            let len = match self.epoch_plan.get(&0) {
+                Some((l, _)) => *l,
+                None => {
+                    let l = rng.range(params.epoch_len.0.max(2), params.epoch_len.1.max(2));
+                    self.epoch_plan.insert(0, (l, parent_header.compact_target()));
+                    l
+                }
+            };
             (
                 EpochNumberWithFraction::new(0, 1, len),
                 parent_header.compact_target(),
             )
+        } else if pe.index() + 1 == pe.length() && self.epoch_plan.contains_key(&(pe.number() + 1)) {
+            let (len, c) = self.epoch_plan[&(pe.number() + 1)];
+            (EpochNumberWithFraction::new(pe.number() + 1, 0, len), c)
         } else if pe.index() + 1 == pe.length() {
             // next epoch: epoch difficulty (= block difficulty * length) moves within tau
             let old_block_diff = compact_to_difficulty(parent_header.compact_target());
@@ -518,6 +552,7 @@ impl World {
                 real = r.1;
                 assert!(tries < 2000, "cannot fit difficulty into tau");
             }
+            self.epoch_plan.insert(pe.number() + 1, (new_len, c));
             (EpochNumberWithFraction::new(pe.number() + 1, 0, new_len), c)
         } else {
             (
